@@ -36,6 +36,9 @@ def gen(rng, with_pump):
                 lines.append(("%s:" % g, ns)); ns = g
         elif r < 0.27 and fresh:
             l = rng.choice(fresh); lines.append(("%s:" % l, ns)); defined.add((ns, l))
+        elif r < 0.285 and have:
+            # defining a local name twice under one global: rejected, whichever spelling is used
+            l = rng.choice(have); lines.append((rng.choice(["%s:", "@defn %s, 3", "@defl %s, 4"]) % l, ns))
         elif r < 0.40:
             lines.append(("@db ( %s ) & 255" % loc, ns)); used.add((ns, loc))
         elif r < 0.47:
@@ -74,10 +77,12 @@ def gen(rng, with_pump):
             lines.append(("@defn %s%s, %d" % (g, l, rng.randrange(200)), "DONE"))
     return lines
 
-def render(lines, qualified):
+def render(lines, qualified, rng=None):
+    """qualified: False = local spellings, True = every local spelling replaced by Global.local,
+    'mixed' = each line independently (a qualified definition must not change the scope of what follows)"""
     out = []
     for text, ns in lines:
-        if not qualified:
+        if not qualified or (qualified == "mixed" and rng.random() < 0.5):
             out.append(text); continue
         if isinstance(ns, tuple):
             _, sn, outer = ns
@@ -105,15 +110,15 @@ def run(ck):
     for i in range(12000 if thorough else 2000):
         with_pump = (i % 3 == 0)
         lines = gen(rng, with_pump)
-        pairs.append((render(lines, False), render(lines, True), with_pump, lines))
+        pairs.append((render(lines, False), render(lines, True), with_pump, lines, render(lines, "mixed", rng)))
     progs = []
-    for p, q, _, _ in pairs:
-        progs += [("z80", p), ("z80", q)]
+    for p, q, _, _, m in pairs:
+        progs += [("z80", p), ("z80", q), ("z80", m)]
     icases = [asm_case(a, text=t, opts="syms") for a, t in progs]
     impl = [AsmResult(r) for r in run_cases(harness, icases)]
     ck.evaluations += len(progs)
-    for i, (p, q, wp, lines) in enumerate(pairs):
-        a, b = impl[2 * i], impl[2 * i + 1]
+    for i, (p, q, wp, lines, m) in enumerate(pairs):
+        a, b, c = impl[3 * i], impl[3 * i + 1], impl[3 * i + 2]
         scopes = len({ns for _, ns in lines if isinstance(ns, str) and ns != 'DONE'})
         nloc = sum(p.count(l) for l in LOCALS)
         if scopes >= 2 and nloc >= 3:
@@ -126,14 +131,24 @@ def run(ck):
             # a local name before any global label: must be rejected (the rewrite has no meaning there)
             if a.ok:
                 ck.violation("a local name used before any global label was accepted: %r" % p,
-                             {"mode": "asm", "arch": "z80", "source": p, "harness_case": icases[2 * i], "expected": "DIAG"})
+                             {"mode": "asm", "arch": "z80", "source": p, "harness_case": icases[3 * i], "expected": "DIAG"})
             continue
         same = a.canon() == b.canon() and (not a.ok or asmk.impl_syms(a) == asmk.impl_syms(b))
         if not same:
             ck.violation("local spelling and qualified spelling differ: %s vs %s for %r" % (
                 a.canon() + ((" " + (a.msg or "").replace("\n", " ")[-70:]) if not a.ok else ""),
                 b.canon() + ((" " + (b.msg or "").replace("\n", " ")[-70:]) if not b.ok else ""), p),
-                {"mode": "asm", "arch": "z80", "source": p, "source_qualified": q, "harness_case": icases[2 * i],
+                {"mode": "asm", "arch": "z80", "source": p, "source_qualified": q, "harness_case": icases[3 * i],
+                 "expected": b.canon()})
+            if len(ck.violations) >= 3:
+                break
+            continue
+        same = c.canon() == b.canon() and (not c.ok or asmk.impl_syms(c) == asmk.impl_syms(b))
+        if not same:
+            ck.violation("mixed local / qualified spelling differs from the qualified one: %s vs %s for %r" % (
+                c.canon() + ((" " + (c.msg or "").replace("\n", " ")[-70:]) if not c.ok else ""),
+                b.canon() + ((" " + (b.msg or "").replace("\n", " ")[-70:]) if not b.ok else ""), m),
+                {"mode": "asm", "arch": "z80", "source": m, "source_qualified": q, "harness_case": icases[3 * i + 2],
                  "expected": b.canon()})
             if len(ck.violations) >= 3:
                 break
@@ -146,9 +161,9 @@ def run(ck):
                      {"mode": "asm", "arch": "z80", "source": t, "harness_case": asm_case("z80", text=t), "expected": "OK 010200000100" + "0707"})
     # K on the pump-free programs
     kprogs = []
-    for p, q, wp, _ in pairs:
+    for p, q, wp, _, m in pairs:
         if not wp:
-            kprogs += [("z80", p), ("z80", q)]
+            kprogs += [("z80", p), ("z80", q), ("z80", m)]
     kprogs = kprogs[: (8000 if thorough else 1500)]
     impl_k, mod_k, ic_k = asmk.run_both(harness, model, kprogs, syms=True)
     ck.evaluations += len(kprogs)
